@@ -15,7 +15,7 @@ separately constructed batch-1 copies on the real classes.
 namespace InfernoVerif.Batch
 open InfernoVerif.Ring
 
-variable {θ S I O β : Type}
+variable {θ S I O β α : Type}
 
 /-- One step of a batched component: sample `b` is stepped with its own state and input and the
 shared parameters `p` (weights, delays, hyper-parameters; adaptation frozen). -/
@@ -39,8 +39,22 @@ def run1 (step : θ → S → I → S × O) (p : θ) (s : S) : List I → S × L
     let r' := run1 step p r.1 rest
     (r'.1, r.2 :: r'.2)
 
+/-- the input sequence of sample `b` (defined when every step has an input for it) -/
+def projSeq (b : Nat) : List (List I) → Option (List I)
+  | [] => some []
+  | Xs :: rest =>
+    match Xs[b]?, projSeq b rest with
+    | some x, some xs => some (x :: xs)
+    | _, _ => none
+
 /-- column `p` of a record whose observations are flat rows (`None` where a row is too short) -/
 def col (p : Nat) (d : List (List β)) : List (Option β) := d.map (·[p]?)
+
+/-- entry `(i, p)` of a record -/
+def cell (d : List (List β)) (i p : Nat) : Option β := (d[i]?).bind (·[p]?)
+
+/-- `selector.expand(B, …)` flattened: every sample sees the same per-synapse offsets -/
+def expandB (B : Nat) (sel : List α) : List α := (List.replicate B sel).flatten
 
 /-! ### batch reduction with `torch.sum`
 
@@ -56,5 +70,8 @@ def accStepB (u : S → I → Int) (acc : Int) (Ss : List S) (Xs : List I) : Int
 
 /-- single-sample trainer step (a batch of one, any reduction that is the identity on one row) -/
 def accStep1 (u : S → I → Int) (acc : Int) (s : S) (x : I) : Int := acc + u s x
+
+/-- `Σ_{i<n} f i` -/
+def sumTo (n : Nat) (f : Nat → Int) : Int := sumB ((List.range n).map f)
 
 end InfernoVerif.Batch
